@@ -50,7 +50,7 @@ BACKENDS = C.BACKENDS_ALL
 
 def gen_cases(tier, seed, shard, nshards):
     rnd = random.Random('c13-%d-%d' % (seed, shard))
-    plan = C.backend_plan(8000 if tier == 'quick' else 220000, BACKENDS)
+    plan = C.backend_plan(20000 if tier == 'quick' else 220000, BACKENDS)
     # the content stratum comes first: a budget cut on a loaded machine must not starve it
     for case in _content_cases(tier, random.Random('c13c-%d-%d' % (seed, shard)), nshards):
         yield case
